@@ -145,19 +145,45 @@ class World(object):
 
         def os_fstat(fd):
             y('fstat')
+            low = getattr(sched.local, 'lowfd', None)
+            if fd == 0 and low is not None:
+                return os.fstat(low.fileno())
             return os.fstat(fd)
 
         def os_utime(path, *a, **k):
             y('utime')
             return os.utime(path, *a, **k)
 
+        class LowFd(object):
+            # a scanner started with its standard input closed (daemonised build tools): the first file it opens is descriptor 0
+            def __init__(self, f):
+                self._f = f
+
+            def fileno(self):
+                return 0
+
+            def __enter__(self):
+                self._f.__enter__()
+                return self
+
+            def __exit__(self, *a):
+                sched.local.lowfd = None
+                return self._f.__exit__(*a)
+
+            def __getattr__(self, k):
+                return getattr(self._f, k)
+
         def cs_open(path, mode='r', *a, **k):
             y('open')
-            return open(path, mode, *a, **k)
+            f = open(path, mode, *a, **k)
+            if getattr(sched.local, 'stdin_closed', False) and 'r' in mode:
+                sched.local.lowfd = f
+                return LowFd(f)
+            return f
 
         def p_load(f):
             y('unpickle')
-            return real_pickle.load(f)
+            return real_pickle.load(getattr(f, '_f', f))
 
         def p_dump(data, f):
             blob = real_pickle.dumps(data)
@@ -224,7 +250,8 @@ def run_impl(events):
                 next_pid += 1
                 tr = transformers[pid]
 
-                def fn(tr=tr):
+                def fn(tr=tr, pid=pid):
+                    w.sched.local.stdin_closed = pid % 2 == 1
                     p = tr._parse_include(w.source)
                     return int(p.get_namespace().symbol_prefixes[0][1:])
                 threads.append(w.sched.run_thread(pid, fn))
